@@ -7,6 +7,7 @@ import (
 	"os"
 	"sort"
 	"strings"
+	"sync"
 
 	"golang.org/x/tools/go/packages"
 	"golang.org/x/tools/go/ssa"
@@ -70,6 +71,38 @@ func loadVerifier(root string) (*Verifier, error) {
 	}
 	v.contracts = loadContracts(root, v.modPath)
 	return v, nil
+}
+
+var lineCache = map[string][]string{}
+var lineMu sync.Mutex
+
+// lineText returns the trimmed source line at pos (used for edit-stable obligation names).
+func (v *Verifier) lineText(pos token.Pos) string {
+	if !pos.IsValid() {
+		return "?"
+	}
+	p := v.fset.Position(pos)
+	lineMu.Lock()
+	defer lineMu.Unlock()
+	ls, ok := lineCache[p.Filename]
+	if !ok {
+		b, err := os.ReadFile(p.Filename)
+		if err == nil {
+			ls = strings.Split(string(b), "\n")
+		}
+		lineCache[p.Filename] = ls
+	}
+	if p.Line-1 < len(ls) && p.Line >= 1 {
+		t := strings.Join(strings.Fields(ls[p.Line-1]), " ")
+		if i := strings.Index(t, "//"); i > 0 {
+			t = strings.TrimSpace(t[:i])
+		}
+		if len(t) > 90 {
+			t = t[:90]
+		}
+		return t
+	}
+	return "?"
 }
 
 // initialState creates symbolic parameters and an unconstrained heap.
@@ -244,10 +277,25 @@ type side struct {
 	st     *State
 	params []Val
 	prefix string
+	loop   int // > 0: only one iteration of this loop is executed
+	regionExit *State
+}
+
+// splitLoopSpec splits "KEY loop N" into (KEY, N).
+func splitLoopSpec(s string) (string, int) {
+	f := strings.Fields(s)
+	if len(f) >= 3 && f[len(f)-2] == "loop" {
+		var n int
+		if _, err := fmt.Sscanf(f[len(f)-1], "%d", &n); err == nil {
+			return strings.Join(f[:len(f)-2], " "), n
+		}
+	}
+	return s, 0
 }
 
 // initSide creates the symbolic inputs of one side of a pair lemma.
 func (x *Exec) initSide(v *Verifier, pkg, key, prefix string) (*side, error) {
+	key, loopN := splitLoopSpec(key)
 	fn := v.funcs[pkg+":"+key]
 	if fn == nil {
 		return nil, fmt.Errorf("no function %s in %s", key, pkg)
@@ -269,11 +317,26 @@ func (x *Exec) initSide(v *Verifier, pkg, key, prefix string) (*side, error) {
 			}
 		}
 	}
-	return &side{fn: fn, fr: fr, st: st, params: params, prefix: prefix}, nil
+	sd := &side{fn: fn, fr: fr, st: st, params: params, prefix: prefix, loop: loopN}
+	if loopN > 0 {
+		// the region's start state must exist before the premises are evaluated (they mention locals)
+		x.prefix = prefix
+		if err := x.prepareLoopBody(fr, loopN, st); err != nil {
+			return nil, err
+		}
+	}
+	return sd, nil
 }
 
 func (sd *side) env(x *Exec, st, old *State, results []Val) *Env {
 	env := &Env{x: x, fn: sd.fn, vars: map[string]Val{}, oldVars: map[string]Val{}, st: st, old: old, post: true, results: results}
+	if sd.loop > 0 {
+		env.fr = sd.fr
+		env.regionSide = true
+		if sd.fr.region != nil {
+			env.pos = sd.fr.region.pos
+		}
+	}
 	for i, p := range sd.fn.Params {
 		env.vars[p.Name()] = sd.params[i]
 		env.oldVars[p.Name()] = sd.params[i]
@@ -363,6 +426,16 @@ func (v *Verifier) genPair(p *Pair, combo []int64, mustWrap map[string]bool) *Ex
 		x.prefix = sd.prefix
 		defer func() { x.prefix = "" }()
 		sd.fr.entry = sd.st.clone()
+		if sd.loop > 0 {
+			exit, err := x.runLoopBody(sd.fr, sd.st.clone())
+			if err != nil {
+				x.bindingError("pair side "+sd.fn.Name(), err.Error(), p.File, p.Line)
+				dead := sd.st.clone()
+				dead.pc = "false"
+				return sd.fr.entry, dead, nil
+			}
+			return sd.fr.entry, exit, nil
+		}
 		exit, results := x.runFunc(sd.fr, sd.st.clone())
 		return sd.fr.entry, exit, results
 	}
